@@ -144,3 +144,25 @@ Print Assumptions C06_cflist_masks_at_most_six.
    encodes to the twelve mask octets followed by zero RFU octets is C16_cflist_masks_any_rfu
    (props/C16.v, Backend/JoinServerCFList.cflist_masks_decode); every run evaluates the same
    statement on observed output (Corr/C06.v, case CCFListDec). *)
+
+(* Join-accept, decode direction: bits 7..4 of the RxDelay octet are RFU and do not reach the decoded
+   value (finding C06-4, fixed by f9b46ea). *)
+Theorem C06_joinaccept_rxdelay_rfu_ignored : forall j0 j1 j2 n2 n1 n0 a3 a2 a1 a0 dl rxd,
+  joinaccept_unmarshal [j0; j1; j2; n2; n1; n0; a3; a2; a1; a0; dl; rxd] =
+  joinaccept_unmarshal [j0; j1; j2; n2; n1; n0; a3; a2; a1; a0; dl; N.land rxd 15].
+Proof. exact ja_rxdelay_rfu_ignored_12. Qed.
+Print Assumptions C06_joinaccept_rxdelay_rfu_ignored.
+
+Theorem C06_joinaccept_cflist_rxdelay_rfu_ignored : forall j0 j1 j2 n2 n1 n0 a3 a2 a1 a0 dl rxd cf,
+  length cf = 16%nat ->
+  joinaccept_unmarshal (j0 :: j1 :: j2 :: n2 :: n1 :: n0 :: a3 :: a2 :: a1 :: a0 :: dl :: rxd :: cf) =
+  joinaccept_unmarshal (j0 :: j1 :: j2 :: n2 :: n1 :: n0 :: a3 :: a2 :: a1 :: a0 :: dl :: N.land rxd 15 :: cf).
+Proof. exact ja_rxdelay_rfu_ignored_28. Qed.
+Print Assumptions C06_joinaccept_cflist_rxdelay_rfu_ignored.
+
+(* FHDR: more than 15 octets of FOpts are refused, whatever their number is modulo 256 (finding C06-5,
+   fixed by 52b19d4: the length used to be narrowed to uint8 before the comparison). *)
+Theorem C06_fhdr_fopts_too_long_refused : forall h opts,
+  items_marshal (fopts h) = Ok opts -> (15 < length opts)%nat -> fhdr_marshal h = Err.
+Proof. exact fhdr_too_long_refused. Qed.
+Print Assumptions C06_fhdr_fopts_too_long_refused.
